@@ -35,6 +35,9 @@ type c01base struct {
 func c01Baselines() []*c01base {
 	var out []*c01base
 	w1 := world.Honest("T")
+	// header SVN fields that differ from each other and between their bytes (a transposition is then visible)
+	w1.Spec.PceSvn, w1.Spec.QeSvn = 0x0d07, 0x0208
+	w1.Parts = w1.Spec.Parts()
 	w2 := world.Honest("T")
 	w2.Spec.Auth = []byte{}
 	w2.Spec.Extra = world.Fill("extra", 16)
@@ -230,6 +233,51 @@ func runC01(r *mc.Run) {
 			note = "all bits outside the PEM chain"
 		}
 		r.SectionDone(mc.Section{Name: fmt.Sprintf("bitflips/%s/%s", b.name, lvlName[l]), Evaluations: int64(done), Exhaustive: done == len(bits), Note: note})
+	}
+
+	// (a') transpositions: every pair of equally long fields of one region exchanged (a signed message assembled
+	// with two fields in each other's place accepts exactly such a quote, and only if the two values differ)
+	{
+		b := bases[0]
+		type tr struct {
+			region string
+			base   int
+			f, g   world.Field
+		}
+		var trs []tr
+		for _, rg := range []struct {
+			name string
+			base int
+			fs   []world.Field
+		}{{"header", 0, world.HeaderFields}, {"td_body", 48, world.BodyFields}, {"qe_report", b.reg.QEReport[0], world.QEReportFields}} {
+			for i, f := range rg.fs {
+				for _, g := range rg.fs[i+1:] {
+					if f.Len == g.Len {
+						trs = append(trs, tr{rg.name, rg.base, f, g})
+					}
+				}
+			}
+		}
+		done := r.Parallel(len(trs)*2, func(k int) {
+			t, l := trs[k/2], []int{world.L0, world.L2}[k%2]
+			id := fmt.Sprintf("swap/%s/%s/%s<->%s", b.name, lvlName[l], t.f.Name, t.g.Name)
+			if !r.Want(id) {
+				return
+			}
+			m := append([]byte(nil), b.raw...)
+			x := append([]byte(nil), m[t.base+t.f.Off:t.base+t.f.Off+t.f.Len]...)
+			y := append([]byte(nil), m[t.base+t.g.Off:t.base+t.g.Off+t.g.Len]...)
+			if bytes.Equal(x, y) {
+				r.Eval(id, false, "swap:identical-values")
+				return
+			}
+			copy(m[t.base+t.f.Off:], y)
+			copy(m[t.base+t.g.Off:], x)
+			err := world.SafeVerifyRaw(m, b.w.Options(l))
+			out := c01Judge(r, id, "swap:"+t.region+":", m, err, b, t.region)
+			r.Eval(id, true, "swap:"+t.region+":"+out)
+		})
+		r.SectionDone(mc.Section{Name: "field-transpositions/" + b.name, Evaluations: int64(done), Exhaustive: done == len(trs)*2})
 	}
 
 	// (b) structured forgeries (Engine A).
